@@ -45,13 +45,13 @@ func loadOwnership(path string) (*ownership, error) {
 		switch {
 		case len(fs) == 2:
 			a.kind, a.subject = fs[0], fs[1]
-		case len(fs) == 4 && fs[2] == "by":
+		case len(fs) == 4 && (fs[2] == "by" || fs[2] == "of" || fs[2] == "on"):
 			a.kind, a.subject, a.by = fs[0], fs[1], fs[3]
 		default:
 			return nil, fmt.Errorf("%s:%d: cannot parse %q", path, ln, parts[0])
 		}
 		switch a.kind {
-		case "called-once", "goroutine-confined", "confined", "setup-setter", "virtual-lock", "option-suffix":
+		case "called-once", "goroutine-confined", "part-of", "callback-on", "setup-setter", "virtual-lock", "option-suffix":
 		default:
 			return nil, fmt.Errorf("%s:%d: unknown annotation kind %q", path, ln, a.kind)
 		}
